@@ -1,5 +1,6 @@
 // C10: Bunch-Kaufman LDLT (real code: compute, solve, info and everything below them) on symbolic symmetric matrices.
 #include "symx_eigen.h"
+#include <map>
 #include <Spectra/LinAlg/BKLDLT.h>
 #include <Spectra/MatOp/DenseSymShiftSolve.h>
 
@@ -262,9 +263,192 @@ static void bk_complex_case(int n, int uplo)
     sym::witness("end-successful");
 }
 
+// Stability mechanism of Bunch-Kaufman pivoting (the exact-arithmetic core of the backward-error clause): one elimination step
+// of the REAL code (permutate_mat + gaussian_elimination_1x1/2x2, driven exactly as compute() drives them) from an arbitrary
+// symmetric matrix; every entry of the reduced matrix is bounded by (1 + 1/alpha) * max|a_ij| after a 1x1 pivot and by
+// (1 + 2/(1 - alpha)) * max|a_ij| after a 2x2 pivot (Bunch & Kaufman 1977), alpha = (1 + sqrt 17)/8.  A pivot search that
+// overlooks part of a column (the classical off-by-one) keeps every residual identity exact and breaks exactly this bound.
+// Normalisation (norm = j < n): the sub-column entry a_j0 equals 1 and |a_i0| <= 1 for the others (norm = n: the whole
+// sub-column is zero).  Every symmetric matrix is of one of these forms up to A -> cA (c > 0) and a sign similarity diag(+-1):
+// the pivoting rule only compares |.|-homogeneous quantities and the bound is homogeneous, so the n sub-cases together cover
+// all matrices; the invariance itself is an argument, not a solver result, and is listed as an assumption.  Without the
+// normalisation the 2x2 obligations stay undecided.
+static void bk_growth_case(int n, int steps, bool simple_alpha, int norm)
+{
+    RMat A(n, n);
+    for (int i = 0; i < n; i++)
+        for (int j = 0; j <= i; j++)
+        {
+            if (j == 0 && i >= 1 && (i == norm || norm == n))
+                A(i, j) = (i == norm) ? Real(1) : Real(0);
+            else
+                A(i, j) = sym::fresh("a_" + std::to_string(i) + "_" + std::to_string(j));
+            if (j == 0 && i >= 1 && i != norm && norm < n)
+                sym::assume(sym::le(sym::abs(A(i, j)), Real(1)));
+            if (i != j)
+                A(j, i) = sym::fresh("junk_" + std::to_string(j) + "_" + std::to_string(i));
+        }
+    Spectra::BKLDLT<Real> s;
+    s.m_n = n;
+    s.m_perm.setLinSpaced(n, 0, n - 1);
+    s.m_permc.clear();
+    s.m_data.resize((n * (n + 1)) / 2);
+    s.compute_pointer();
+    s.copy_data(A, Eigen::Lower, Real(0));
+    // alpha: the double constant compute() passes, or (simple_alpha) the nearby rational 16/25 - the bound is a property of the
+    // pivoting rule for every 0 < alpha < 1, and small numerators keep the 2x2 obligations within the solver's reach
+    const Real alpha = simple_alpha ? sym::rational(16, 25) : sym::exact((1.0 + std::sqrt(17.0)) / 8.0);
+    const Real c1 = sym::rational(1, 1) + sym::rational(1, 1) / alpha;
+    const Real c2 = sym::rational(1, 1) + sym::rational(2, 1) / (sym::rational(1, 1) - alpha);
+    int done = 0;
+    for (Eigen::Index k = 0; k < n - 1 && done < steps; k++, done++)
+    {
+        Real mu = sym::abs(s.coeff(k, k));
+        for (Eigen::Index j = k; j < n; j++)
+            for (Eigen::Index i = j; i < n; i++)
+                mu = sym::smax(mu, sym::abs(s.coeff(i, j)));
+        bool is_1x1 = s.permutate_mat(k, alpha);
+        CompInfo info = is_1x1 ? s.gaussian_elimination_1x1(k) : s.gaussian_elimination_2x2(k);
+        sym::note("pivot", std::string(is_1x1 ? "1x1" : "2x2") + " at step " + std::to_string(done));
+        if (info != CompInfo::Successful)
+        {
+            sym::witness("end-singular-pivot");
+            return;
+        }
+        Eigen::Index kk = k + (is_1x1 ? 1 : 2);
+        sym::Scope sc(std::string("after ") + (is_1x1 ? "1x1" : "2x2") + " pivot, step " + std::to_string(done));
+        for (Eigen::Index j = kk; j < n; j++)
+            for (Eigen::Index i = j; i < n; i++)
+                sym::check("element growth bound(" + std::to_string(i) + "," + std::to_string(j) + ")", sym::le(sym::abs(s.coeff(i, j)), (is_1x1 ? c1 : c2) * mu));
+        if (!is_1x1)
+            k++;
+    }
+    sym::witness("end");
+}
+
+// The pivot search and selection of the REAL permutate_mat (find_lambda, find_sigma, pivoting_1x1/2x2, interchange_rows) from an
+// ARBITRARY reduced matrix at elimination step k (state injection: every stored entry is a symbol) against the Bunch-Kaufman
+// rule written independently: lambda = max_{i>k} |a_ik| attained first at row r, sigma = max_{i>=k, i!=r} |a_ir|;
+//   1x1 pivot a_kk, no interchange  iff  lambda = 0  or  |a_kk| >= alpha lambda  or  |a_kk| sigma >= alpha lambda^2
+//   1x1 pivot a_rr (k <-> r)        iff  otherwise and |a_rr| >= alpha sigma
+//   2x2 pivot [a_kk a_rk; a_rk a_rr] (k+1 <-> r) otherwise.
+// The element-growth bound (hence the backward-error clause, in exact arithmetic) is a theorem about exactly this rule; a search
+// that overlooks part of a column keeps every residual identity intact and is visible only here and in bk-growth.
+static void bk_pivot_rule_case(int n, int k)
+{
+    using z3::expr;
+    Spectra::BKLDLT<Real> s;
+    s.m_n = n;
+    s.m_perm.setLinSpaced(n, 0, n - 1);
+    s.m_permc.clear();
+    s.m_data.resize((n * (n + 1)) / 2);
+    s.compute_pointer();
+    std::map<std::string, std::pair<int, int>> where;
+    RMat M(n, n);  // symmetric view of the stored lower triangle before the call
+    for (int j = 0; j < n; j++)
+        for (int i = j; i < n; i++)
+        {
+            std::string nm = "a_" + std::to_string(i) + "_" + std::to_string(j);
+            Real a = sym::fresh(nm);
+            s.coeff(i, j) = a;
+            M(i, j) = a;
+            M(j, i) = a;
+            where[nm] = {i, j};
+        }
+    const Real alpha = sym::exact((1.0 + std::sqrt(17.0)) / 8.0);
+    bool is_1x1 = s.permutate_mat(k, Real((1.0 + std::sqrt(17.0)) / 8.0));
+    // which diagonal entry now sits at (k,k) resp. (k+1,k+1)?
+    auto origin = [&](const Real& t) -> int {
+        std::vector<std::string> sy = sym::symbols_of(t);
+        if (sy.size() != 1 || !where.count(sy[0]) || where[sy[0]].first != where[sy[0]].second)
+            return -1;
+        return where[sy[0]].first;
+    };
+    int pk = origin(s.coeff(k, k)), pk1 = (k + 1 < n) ? origin(s.coeff(k + 1, k + 1)) : -1;
+    sym::note("observed", std::string(is_1x1 ? "1x1" : "2x2") + " pivot rows " + std::to_string(pk) + (is_1x1 ? "" : "," + std::to_string(pk1)));
+    sym::expect("pivot position holds a diagonal entry of the reduced matrix", pk >= k && (is_1x1 || pk1 > k), "origin " + std::to_string(pk) + "," + std::to_string(pk1));
+    if (pk < 0 || (!is_1x1 && pk1 < 0))
+        return;
+    // the reduced matrix after the call is the symmetric permutation the rule prescribes (and nothing else moved)
+    {
+        std::vector<int> perm(n);
+        for (int i = 0; i < n; i++)
+            perm[i] = i;
+        if (is_1x1)
+            std::swap(perm[k], perm[pk]);
+        else
+        {
+            sym::expect("2x2 pivot keeps row k in place (version 1 of the interchange)", pk == k, "row " + std::to_string(pk) + " moved to k");
+            std::swap(perm[k + 1], perm[pk1]);
+        }
+        bool same = true;
+        for (int j = k; j < n; j++)
+            for (int i = j; i < n; i++)
+            {
+                std::vector<std::string> a = sym::symbols_of(s.coeff(i, j)), b = sym::symbols_of(M(perm[i], perm[j]));
+                same = same && a.size() == 1 && a == b;
+            }
+        sym::expect("reduced matrix after the call = P A P' for the pivot permutation", same, "entries moved inconsistently");
+    }
+    // reference rule
+    expr zero = sym::ctx().real_val(0);
+    Real lambda = sym::abs(M(k + 1, k));
+    for (int i = k + 2; i < n; i++)
+        lambda = sym::smax(lambda, sym::abs(M(i, k)));
+    Real akk = sym::abs(M(k, k));
+    auto first_max = [&](int r) {
+        expr c = sym::btrue();
+        for (int i = k + 1; i < n; i++)
+            if (i < r)
+                c = c && sym::lt(sym::abs(M(i, k)), sym::abs(M(r, k)));
+            else if (i > r)
+                c = c && sym::le(sym::abs(M(i, k)), sym::abs(M(r, k)));
+        return c;
+    };
+    auto sigma_of = [&](int r) {
+        Real sg(0);
+        bool first = true;
+        for (int i = k; i < n; i++)
+            if (i != r)
+            {
+                sg = first ? sym::abs(M(i, r)) : sym::smax(sg, sym::abs(M(i, r)));
+                first = false;
+            }
+        return sg;
+    };
+    expr lam0 = sym::le(lambda, Real(0));
+    expr keep = lam0 || sym::le(alpha * lambda, akk);
+    for (int r = k + 1; r < n; r++)
+        keep = keep || (first_max(r) && sym::le(alpha * lambda * lambda, akk * sigma_of(r)));
+    if (is_1x1 && pk == k)
+        sym::check("1x1 pivot without interchange only when the Bunch-Kaufman rule says so", keep);
+    else
+    {
+        int r = is_1x1 ? pk : pk1;
+        Real sg = sigma_of(r), arr = sym::abs(M(r, r));
+        expr pre = !lam0 && sym::lt(akk, alpha * lambda) && first_max(r) && sym::lt(akk * sg, alpha * lambda * lambda);
+        if (is_1x1)
+            sym::check("1x1 pivot a_rr only when the Bunch-Kaufman rule says so", pre && sym::le(alpha * sg, arr));
+        else
+            sym::check("2x2 pivot only when the Bunch-Kaufman rule says so", pre && sym::lt(arr, alpha * sg));
+    }
+    sym::witness("end");
+}
+
 int main(int argc, char** argv)
 {
     std::vector<sym::Case> cases;
+    for (int n = 2; n <= 5; n++)
+        for (int k = 0; k + 1 < n; k++)
+            cases.push_back({"bk-pivot-rule/n" + std::to_string(n) + "/k" + std::to_string(k), [=]() { bk_pivot_rule_case(n, k); }});
+    for (int sa = 0; sa < 2; sa++)
+    {
+        std::string t = sa ? "/alpha16_25" : "/alpha-double";
+        for (int n = 3; n <= 4; n++)
+            for (int norm = 1; norm <= n; norm++)
+                for (int steps = 1; steps <= n - 2; steps++)
+                    cases.push_back({"bk-growth/n" + std::to_string(n) + "/step" + std::to_string(steps) + t + "/norm" + std::to_string(norm), [=]() { bk_growth_case(n, steps, sa, norm); }});
+    }
     for (int n = 1; n <= 3; n++)
     {
         std::string sn = "n" + std::to_string(n);
